@@ -360,6 +360,53 @@ prop(
 )
 
 
+_LED_NOTE = ("Trusted: the fake OpenRGB server in orgb.go (the protocol subset of realbucksavage/openrgb-go), the sysfs fixture bind-mounted over "
+             "/sys/class/hidraw in a private mount namespace (unshare -m), the overlay hook that sets the handler's event name, EV_SYN / CC fences. "
+             "LED refresh timing is the real one (10 ms cycle); an observation evaluates the newest frame once at least 3 frames have arrived after "
+             "the fence and keeps polling for 3 s before it reports a persistent mismatch.")
+
+prop(
+    "C17", "exploration",
+    "The REAL LED loop (handleOpenrgb) of one device per case against a fake OpenRGB server. Layout: the LEDs of ~80% of the keys in use plus 0-8 "
+    "other named keys and 0-3 unnamed extras in random order (generic controller, or the HyperX name with/without its 18 strip LEDs); description "
+    "with 1-3 mappings (never named Control), 2-10 note keys, 70% of the octave/semitone/channel/mapping/panic/multinote keys, seven "
+    "pairwise distant colours, non-zero default transposition/channel in some cases. 3-24 steps: note key press/release, action taps "
+    "(|12*octave+semitone| <= 127), MIDI-in Note On / Note Off / Note On with velocity 0 on the current or another channel (80% aimed at a "
+    "mapped key's current pitch), panic, and observations. Oracle at each observation: reference frame function over the LEDs the property "
+    "speaks about - note-key LEDs: unavailable colour when out of range, else pitch-class colour (+-2 per component), or one of the applicable "
+    "highlight colours (active / external on current channel / that channel's colour) when the pitch sounds; octave, semitone, mapping and "
+    "channel key LEDs: role colours are LEARNED per value class on first sight, must stay consistent and must differ between the classes the "
+    "property distinguishes (0 / 1 / more; at-end / free; channel k / k'), channel colours cross-checked between channel keys and other-channel "
+    "highlights; after disconnect the last frame is all red. Non-trivial = observation with a held key and an external note on another channel "
+    "under a non-zero transposition, or a layout lacking the LED of an action key.",
+    [dict(test="TestC17", wrap="mountns", shards=16, checks_quick=14, checks_thorough=400, shrinktime="20s", gomaxprocs=4, timeout_quick=900)],
+    level_text="Generated layouts/states against a reference frame function, on the real refresh loop over TCP.",
+    level_note=_LED_NOTE,
+    technique="stateful property-based testing (rapid) of the real LED loop vs reference frame function with learned role colours",
+)
+
+
+prop(
+    "C16", "exploration",
+    "1-4 real devices processed concurrently in a binary built with -race: each with the real LED loop connected to one fake OpenRGB server "
+    "(own controller / hidraw node), MIDI-in from one real DynamicFanOut fed with 0-12 cycling messages, one shared DeviceConfig value; per "
+    "device a key history of 0-30 events (C17-style descriptions and layouts) that ends with a note key held in 80% of the cases, and the "
+    "moment its event stream ends drawn from: before the LED loop connects (0-200 ms), during controller discovery (260-490 ms), after the "
+    "first frame with the history played back to back / with 0-6 ms pauses (between frames) / followed by a 0-40 ms wait, always while MIDI-in "
+    "traffic flows; then the manager's DespawnOutput. Oracles: (1) no data-race report whose stack is in HIDI code (race log parsed after every "
+    "case); (2) ProcessEvents returns within 3 s of the end of its stream (15 s guard with goroutine dump); (3) within 3 s after all devices "
+    "ended no goroutine of the device package is alive; (4) each device's MIDI output equals the output of the same history run alone "
+    "(exact sequence; disconnect clean-up compared as a multiset because its order is a map walk). Non-trivial = a device whose stream ended "
+    "with a note held after its LED loop had sent >= 1 frame; distinct by case hash.",
+    [dict(test="TestC16", bin="race", wrap="mountns", shards=16, checks_quick=6, checks_thorough=200, shrinktime="15s", gomaxprocs=4, timeout_quick=900)],
+    level_text="Generated concurrent schedules under the Go race detector (happens-before based: an unsynchronised access pair is reported "
+               "without having to hit the timing window), with termination, leak and solo-vs-concurrent differential oracles.",
+    level_note=_LED_NOTE + " Schedules are sampled; a failure of this check cannot be shrunk reliably (the race detector reports each race once per "
+               "process), the replay file is the generated case plus the report.",
+    technique="property-based generation of concurrent schedules (rapid) under the race detector + differential (solo vs concurrent) oracle",
+)
+
+
 # Properties not (yet) claimed. Kept current by hand; every id of properties.jsonl is either in PROPS or here.
 _PENDING = "check not built yet in this round; planned as property-based test per DESIGN.md"
 NOT_APPLICABLE = [{"property_id": "C%02d" % i, "reason": _PENDING} for i in range(1, 21) if "C%02d" % i not in PROPS]
